@@ -114,6 +114,29 @@ fn plan_case(case: &mut Case) {
     expect_eq!("vecdeque-wrapped", wdq.rewrite(&plan), ids.iter().map(|i| map(*i)).collect::<VecDeque<_>>());
     let bs: BTreeSet<Id> = ids.iter().copied().collect();
     expect_eq!("btreeset", bs.rewrite(&plan), bs.iter().map(|i| map(*i)).collect::<BTreeSet<_>>());
+    // the write-once register harness: server states and messages carry whatever the wrapped
+    // server puts in them (here: ids), client states and request ids carry none
+    {
+        use stateright::actor::write_once_register::{WORegisterActorState, WORegisterMsg};
+        type St = WORegisterActorState<Vec<Id>, u64>;
+        let server: St = WORegisterActorState::Server(ids.clone());
+        expect_eq!("wo-register-server-state", server.rewrite(&plan), WORegisterActorState::Server(ids.iter().map(|i| map(*i)).collect::<Vec<_>>()));
+        let client: St = WORegisterActorState::Client { awaiting: Some(7), op_count: 3 };
+        expect_eq!("wo-register-client-state", client.rewrite(&plan), client.clone());
+        type M = WORegisterMsg<u64, Id, Vec<Id>>;
+        let first = ids[0];
+        let msgs: Vec<(M, M)> = vec![
+            (WORegisterMsg::Internal(ids.clone()), WORegisterMsg::Internal(ids.iter().map(|i| map(*i)).collect())),
+            (WORegisterMsg::Put(5, first), WORegisterMsg::Put(5, map(first))),
+            (WORegisterMsg::Get(6), WORegisterMsg::Get(6)),
+            (WORegisterMsg::PutOk(5), WORegisterMsg::PutOk(5)),
+            (WORegisterMsg::PutFail(5), WORegisterMsg::PutFail(5)),
+            (WORegisterMsg::GetOk(6, first), WORegisterMsg::GetOk(6, map(first))),
+        ];
+        for (m, want) in msgs {
+            expect_eq!("wo-register-msg", m.rewrite(&plan), want);
+        }
+    }
     let bm: BTreeMap<Id, Id> = ids.iter().enumerate().map(|(i, v)| (Id::from(i), *v)).collect();
     expect_eq!("btreemap", bm.rewrite(&plan), bm.iter().map(|(k, v)| (map(*k), map(*v))).collect::<BTreeMap<_, _>>());
     let hs: HashableHashSet<Id> = ids.iter().copied().collect();
